@@ -2035,6 +2035,9 @@ class FakeSocket:
             for (channel, subs) in subscribers.items():
                 if self in subs:
                     channels.append(channel)
+            if not channels:
+                # Nothing to unsubscribe from: redis still acknowledges once
+                self.put_response([mtype, None, self._pubsub])
         for channel in channels:
             subs = subscribers.get(channel, set())
             if self in subs:
